@@ -1,4 +1,7 @@
+pub mod c03;
+pub mod c13;
 pub mod c14;
+pub mod c18;
 
 use crate::engine::{finish, Case, Coverage, Run, Stats, Violation};
 use crate::env::Env;
@@ -8,7 +11,10 @@ type ReplayFn = fn(&Env, &Case) -> Vec<Violation>;
 
 fn table(prop: &str) -> Option<(RunFn, ReplayFn)> {
     Some(match prop {
+        "C03" => (c03::run, c03::replay),
+        "C13" => (c13::run, c13::replay),
         "C14" => (c14::run, c14::replay),
+        "C18" => (c18::run, c18::replay),
         _ => return None,
     })
 }
